@@ -23,10 +23,17 @@ static token tape_pop(int kind){
   return t;
 }
 void tape_write_num(double v){ token t = {T_NUM, v, 0, 0, 0, 0, 0, 0}; tape_push(t); }
+/* floating-point data: in the ASCII format it round-trips only when the stream was switched to 17 significant digits before it is written */
+bool tape_fmt_set;
+#ifndef TAPE_ASCII
+#define TAPE_ASCII 0
+#endif
+void tape_write_dbl(double v){ __CPROVER_assert(!TAPE_ASCII || tape_fmt_set, "C06 ASCII format: the stream is set to scientific notation with 17 digits before the first floating-point datum is written"); tape_write_num(v); }
 void tape_write_rule(int r){ token t = {T_RULE, (double) r, 0, 0, 0, 0, 0, 0}; tape_push(t); }
 void tape_write_flag(bool f){ token t = {T_FLAG, f ? 1.0 : 0.0, 0, 0, 0, 0, 0, 0}; tape_push(t); }
 void tape_write_obj(gobj o){ token t = {T_OBJ, 0.0, o.id, 0, 0, 0, o.n, o.maxidx}; tape_push(t); }
 void tape_write_vec(gvec v){ if (v.len == 0) return; token t = {T_VEC, 0.0, v.id, v.len, v.strips, v.last, 0, v.maxv}; tape_push(t); }   /* an empty vector occupies no data */
+void tape_write_dvec(gvec v){ if (v.len == 0) return; __CPROVER_assert(!TAPE_ASCII || tape_fmt_set, "C06 ASCII format: the stream is set to scientific notation with 17 digits before the first floating-point datum is written"); tape_write_vec(v); }
 double tape_read_num(void){ return tape_pop(T_NUM).num; }
 int    tape_read_rule(void){ return (int) tape_pop(T_RULE).num; }
 bool   tape_read_flag(void){ return tape_pop(T_FLAG).num != 0.0; }
@@ -54,7 +61,7 @@ typedef struct { int num_dimensions, num_outputs, order; gobj points, needed, va
 typedef struct { int num_dimensions, num_outputs; gobj tensors, active_tensors, points, needed, values, updated_tensors, updated_active_tensors; gvec active_w, max_levels, updated_active_w, fourier_coefs; int wrapper_levels; } GFourier;
 
 #define DIMS_OUTS(g) do{ (g).num_dimensions = nondet_int(); (g).num_outputs = nondet_int(); __CPROVER_assume((g).num_dimensions >= 1 && (g).num_dimensions <= 20 && (g).num_outputs >= 0 && (g).num_outputs <= 20); }while(0)
-#define SAVE_TAPE() do{ for (int k_ = 0; k_ < TAPE_MAX; k_++) tape2[k_] = tape[k_]; tape2_w = tape_w; tape_w = 0; tape_r = 0; }while(0)
+#define SAVE_TAPE() do{ for (int k_ = 0; k_ < TAPE_MAX; k_++) tape2[k_] = tape[k_]; tape2_w = tape_w; tape_w = 0; tape_r = 0; tape_fmt_set = false; }while(0)
 #define SAME_TAPE() do{ __CPROVER_assert(tape_w == tape2_w, "C06 writing the restored grid produces as many tokens as the original"); \
   for (int k_ = 0; k_ < TAPE_MAX; k_++) if (k_ < tape_w) __CPROVER_assert(tape[k_].kind == tape2[k_].kind && TSG_SAME(tape[k_].num, tape2[k_].num) && tape[k_].id == tape2[k_].id && tape[k_].len == tape2[k_].len && tape[k_].n == tape2[k_].n && tape[k_].last == tape2[k_].last && tape[k_].mx == tape2[k_].mx, \
       "C06 writing the restored grid reproduces the original token sequence"); }while(0)
